@@ -114,6 +114,107 @@ def canon_items(items, ws):
     return out
 
 
+# ---------------------------------------------------------------- persist() over REAL connection attempts
+def real_attempt(rnd):
+    """one connection attempt of the real WebSocket/WebsocketSession over the simulated network"""
+    kind = rnd.choice(["sockfail", "request-write-fails", "request-write-raises", "rejected", "eof-before-reply", "ready-then-eof",
+                       "ready-then-protocol-error", "garbage-reply", "recv-fails"])
+    sc = dict(cfg=simnet.default_cfg(), keys=[b"\x00\x00\x00\x01"] * 4, key16=scen.KEY16, salt=rnd.randrange(0, 6), steps=[])
+    if kind == "sockfail":
+        sc["connect"] = "sockfail"
+    elif kind == "request-write-fails":
+        sc["wfaults"] = ["oserr"]
+    elif kind == "request-write-raises":
+        sc["wfaults"] = ["exc"]
+    elif kind == "rejected":
+        sc["steps"] = [("data", 0, b"HTTP/1.1 503 Service Unavailable\r\n\r\n"), ("eof", 0)]
+    elif kind == "eof-before-reply":
+        sc["steps"] = [("eof", 0)]
+    elif kind == "ready-then-eof":
+        sc["steps"] = [("data", 0, scen.HANDSHAKE + ref6455.encode_frame(1, b"hi")), ("eof", 0)]
+    elif kind == "ready-then-protocol-error":
+        sc["steps"] = [("data", 0, scen.HANDSHAKE + ref6455.encode_frame(3, b""))]
+    elif kind == "garbage-reply":
+        sc["steps"] = [("data", 0, b"\x00\xff garbage\r\n\r\n"), ("eof", 0)]
+    else:
+        sc["steps"] = [("data", 0, scen.HANDSHAKE), ("oserr", 0)]
+    sc["_kind"] = kind
+    return sc
+
+
+def run_real_persist(attempts):
+    """persist() driving a real WebSocket; returns (names of yielded events, how it ended, attempts made)"""
+    import lomond.websocket as W
+    import lomond.session as S
+    import lomond.persist as P
+    runs = []
+
+    class WS(W.WebSocket):
+        def connect(self, **kw):
+            i = len(runs)
+            if i >= len(attempts):
+                raise ScriptEnd()
+            sc = attempts[i]
+            run = simnet.Run(sc)
+            runs.append(run)
+
+            class Sess(S.WebsocketSession):
+                def _connect(self_):
+                    if sc.get("connect") == "sockfail":
+                        self_._socket_fail("unable to connect")
+                    run.sock = simnet.SimSocket(run)
+                    return run.sock, None
+
+                def _selector_cls(self_, sock):
+                    run.selector = simnet.SimSelector(sock, run)
+                    return run.selector
+            S.time = run.clock
+            return W.WebSocket.connect(self, session_class=Sess, **kw)
+
+    class Exit(object):
+        def wait(self, t=None):
+            return False
+
+        def is_set(self):
+            return False
+    old_time = S.time
+    names = []
+    ended = "running"
+    try:
+        for ev in P.persist(WS("ws://example.test/chat"), min_wait=0, max_wait=1, exit_event=Exit()):
+            names.append(ev.name)
+        ended = "returned"
+    except (ScriptEnd, simnet.Blocked):
+        ended = "running"
+    except Exception as e:
+        ended = "raised:%s: %s" % (type(e).__name__, str(e)[:80])
+    finally:
+        S.time = old_time
+    open_socks = [i for i, r in enumerate(runs) if r.sock is not None and not r.sock.closed]
+    return names, ended, len(runs), open_socks
+
+
+def real_family(rep, rnd, n):
+    cases = 0
+    for i in range(n):
+        attempts = [real_attempt(rnd) for _ in range(rnd.choice([2, 4, 8]))]
+        names, ended, made, open_socks = run_real_persist(attempts)
+        cases += 1
+        rep.add_case(("real-persist", i))
+        for a in attempts:
+            rep.count("real_attempt", a["_kind"])
+        bad = None
+        if ended != "running" or made != len(attempts):
+            bad = "persist() over real connection attempts ended by itself (%s) after %d of %d scripted attempts (%s)" % (ended, made, len(attempts), [a["_kind"] for a in attempts][:made])
+        elif names.count("back_off") != len(attempts):
+            bad = "persist() yielded %d BackOff events for %d finished attempts" % (names.count("back_off"), len(attempts))
+        elif open_socks:
+            bad = "socket of attempt %s left open by persist()" % open_socks
+        if bad:
+            rep.violation(bad, scenario=dict(kind="real-persist", attempts=[fam.jsonable_sc(fam.strip_meta(a)) for a in attempts]), family="C16:real-attempts")
+    rep.families.append(dict(name="C16:real-attempts", cases=cases, rule="persist() driving the REAL WebSocket/WebsocketSession over the simulated network through 2-8 attempts that fail in different ways (resolver/connect failure, request write failing with various errnos and error texts, rejection, EOF, garbage, protocol error, recv failure): it must never end by itself, must back off after every attempt and leave no socket open"))
+
+
 def gen(rnd, long_fail=False):
     mn = Fraction(rnd.choice([0, 1, 5, 5, 10, Fraction(1, 2), Fraction(5, 4)]))
     mx = mn + Fraction(rnd.choice([0, 1, 25, 25, 60, Fraction(1, 4), 300, 3600]))
@@ -232,6 +333,7 @@ def run(rep, info, model, tier, seed):
                     first = (sc, got[:8], mitems[:8])
         if len(rep.samples) < 3:
             rep.sample(dict(min=str(sc["min"]), max=str(sc["max"]), attempts=sc["attempts"][:10], draws=[str(d) for d in sc["draws"][:10]], exits=sc["exits"][:10]))
+    real_family(rep, rnd, 60 if tier == "quick" else 1500)
     if dis and not rep.violations:
         rep.broken("correspondence C16: model and implementation disagree on %d scenarios; first: %r" % (dis, first))
     rep.families.append(dict(name="C16:outcome-sequences", cases=len(scs), disagreements=dis,
